@@ -239,6 +239,14 @@ DoMult(d) ==
   IN /\ r1' = q /\ UNCHANGED r2
      /\ ModNOk(k, r1, q)
      /\ Step([op |-> "mult", k |-> HX(k), cls |-> d[1], priv |-> PrivClass(k), exp |-> Enc(q)])
+(* r_i := [k] r_i for the zero-like scalars: the library's result object stays in the register, so a later Add sees *)
+(* the point at infinity in whatever internal form that operation produced it                                        *)
+ZeroLike == {By!Zeros(32), F32(N), F32(<<1>>), F32(BN!Sub(N, <<1>>))}
+DoMultReg(i, k) ==
+  LET x == IF i = 1 THEN r1 ELSE r2
+      q == S!Ec!Mul(k, x)
+  IN /\ (IF i = 1 THEN r1' = q /\ UNCHANGED r2 ELSE r2' = q /\ UNCHANGED r1)
+     /\ Step([op |-> "multreg", a |-> i, k |-> HX(k), exp |-> Enc(q)])
 DoCombined(tag, a, b) ==
   LET q == S!Ec!Combined(a, b, r1)
   IN /\ r1' = q /\ UNCHANGED r2
@@ -301,6 +309,7 @@ Next ==
   \/ fam = "mul" /\ nops = 0 /\ shard = 0 /\ IsSmallMul(r1) /\ \E c \in CombCases : DoCombined(c[1], c[2], c[3])
   \/ fam = "mul" /\ nops = 0 /\ shard = 0 /\ ~IsSmallMul(r1) /\ \E i \in 1..3 : DoCombined("rand", Rnd(4400 + i, 32), Rnd(4500 + i, 32))
   \/ fam = "add" /\ nops < 2 /\ \E i \in 1..2 : \E j \in 1..2 : (IF nops = 0 THEN TRUE ELSE i # j) /\ DoAdd(i, j)
+  \/ fam = "add" /\ nops = 0 /\ \E i \in 1..2 : \E k \in ZeroLike : DoMultReg(i, k)
   \/ fam = "add" /\ nops < 2 /\ DoDouble(1)
   \/ fam = "codec" /\ nops = 0 /\ r1 # Inf /\ \E m \in Mutations(r1) : DoDecode(m)
   \/ fam = "codec" /\ nops = 0 /\ r1 = Inf /\ \E m \in FixedStrings \cup RandStrings : DoDecode(m)
